@@ -275,7 +275,7 @@ pub fn line_of(rng: &mut Rng, frame: &[u8], deco: bool) -> Vec<u8> {
 
 pub const JUNK_KINDS: &[&str] = &[
     "empty", "blank", "text", "hex13", "hex15", "hex27", "hex29", "hex41", "hex-odd", "high-bytes", "nul",
-    "lone-cr", "overlong", "utf8-multibyte", "truncated-frame", "semicolon-only", "split-utf8", "pow2-len", "pow2-len", "ctrl-bytes", "ctrl-z", "bom", "overlong-frame-tail", "utf16-bom", "greeting", "at-cut",
+    "lone-cr", "overlong", "utf8-multibyte", "truncated-frame", "semicolon-only", "split-utf8", "pow2-len", "pow2-len", "ctrl-bytes", "ctrl-z", "bom", "overlong-frame-tail", "utf16-bom", "greeting", "at-cut", "lookalike-digit-frame",
 ];
 
 /// A line (with newline) that is unambiguously *not* a frame: its hex-digit
@@ -304,6 +304,19 @@ pub fn junk(rng: &mut Rng, kind: &str) -> Vec<u8> {
         "ctrl-bytes" => { let n = rng.range(1, 30); (0..n).map(|_| { let c = rng.range(1, 31) as u8; if c == b'\n' { 0x0B } else { c } }).collect() }
         "ctrl-z" => match rng.below(3) { 0 => vec![0x1A], 1 => { let mut x = vec![0x1A]; x.extend(b"qq zz"); x } _ => { let mut x = b"zz".to_vec(); x.push(0x1A); x.extend(b"qq"); x } },
         "utf16-bom" => { let mut x = if rng.chance(0.5) { vec![0xFF, 0xFE] } else { vec![0xFE, 0xFF] }; for _ in 0..rng.range(0, 12) { x.push(*rng.pick(&[0u8, b'*', b'8', b'D', 0x00, b';'])); } x }
+        // a valid frame in which one digit is replaced by a non-ASCII character whose code point merely ends
+        // in that digit's ASCII value (U+0144 for 'D', U+0131 for '1', U+2041 for 'A' ...): 13 / 27 digits, junk
+        "lookalike-digit-frame" => {
+            let hex = *rng.pick(&["8D406B902015A678D4D220AA4BDA", "8D40621D58C382D690C8AC2863A7", "5D3982A87C156D", "28001A1B1F0706"]);
+            let at = rng.below(hex.len() as u64) as usize;
+            let c = hex.as_bytes()[at] as u32;
+            let cp = *rng.pick(&[0x0100u32, 0x0200, 0x2000, 0x1F000]) + c;
+            let mut s = String::new();
+            s.push_str(&hex[..at]);
+            s.push(char::from_u32(cp).unwrap_or('x'));
+            s.push_str(&hex[at + 1..]);
+            s.into_bytes()
+        }
         // a time-stamped '@' line cut short: even digit counts that are not frame lengths
         "at-cut" => { let n = *rng.pick(&[16usize, 18, 20, 22, 24, 30, 32, 34, 36, 38, 42, 44]); let mut v = vec![b'@']; v.extend(hexn(rng, n)); v.push(b';'); v }
         // what other services say first when one connects to the wrong port
